@@ -182,6 +182,29 @@ theorem feed_continue_ccount (c : Ctrl K τ) (l : List (Obs K)) (s : St τ)
         simp [hf] at h
         exact check_continue_ccount h
 
+/-- the verdict of the last call is the one computed from the final counters -/
+theorem feed_verdict (c : Ctrl K τ) (l : List (Obs K)) (s : St τ) (st : Status) (h : c.feed l = some (s, st)) :
+    st = verdict c.limit c.level s.itcount s.ccount := by
+  have key : ∀ (s0 : St τ) (o : Obs K), c.check s0 o = some (s, st) →
+      st = verdict c.limit c.level s.itcount s.ccount := by
+    intro s0 o hc
+    obtain ⟨inc, aux, _, rfl, rfl⟩ := check_eq_some hc
+    rfl
+  rcases List.eq_nil_or_concat l with rfl | ⟨l', o, rfl⟩
+  · simp [Ctrl.feed] at h
+  · cases l' with
+    | nil =>
+      simp only [List.concat_eq_append, List.nil_append, feed_single] at h
+      exact key _ _ h
+    | cons o0 os =>
+      simp only [List.concat_eq_append, List.cons_append] at h
+      rw [feed_snoc] at h
+      cases hf : c.feed (o0 :: os) with
+      | none => simp [hf] at h
+      | some p =>
+        simp [hf] at h
+        exact key _ _ h
+
 /-! ### counting: the counter never exceeds the number of calls in which the criterion held -/
 
 /-- number of calls, starting from state `s`, in which the criterion said `inclvl = True` -/
@@ -367,6 +390,63 @@ theorem stochastic_crit_true {dE : K} {level : Int} {limit : Option Int} {memLen
     Bool.not_eq_true', List.isEmpty_eq_false_iff] at h
   obtain ⟨⟨h1, ⟨h2, h3⟩, h4⟩, _⟩ := h
   exact ⟨h1, h2, h3, h4⟩
+
+/-- the last `m` elements of a list (`m ≤ 0`: none) -/
+def lastN {α : Type} (m : Int) (l : List α) : List α := l.drop (l.length - m.toNat)
+
+theorem stochMem_lastN (m : Int) (vals : List K) (v : K) :
+    stochMem m (lastN m vals) v = lastN m (vals ++ [v]) := by
+  unfold stochMem lastN
+  have h1 : vals.drop (vals.length - m.toNat) ++ [v] = (vals ++ [v]).drop (vals.length - m.toNat) := by
+    rw [List.drop_append_of_le_length (by omega)]
+  rw [h1]
+  simp only [List.length_drop, List.length_append, List.length_singleton, List.drop_drop]
+  split
+  · congr 1; omega
+  · congr 1; omega
+
+theorem stochastic_aux (dE : K) (level : Int) (limit : Option Int) (memLen : Int) :
+    ∀ a it o b a', (stochastic dE level limit memLen).crit a it o = some (b, a') → a' = stochMem memLen a o.value := by
+  intro a it o b a' h
+  simp only [stochastic, Option.some.injEq, Prod.mk.injEq] at h
+  exact h.2.symm
+
+/-- the memory of `StochasticAbsDeltaEnergyController` after a history: the last `memory_length` energies -/
+theorem stochastic_feed_aux (dE : K) (level : Int) (limit : Option Int) (memLen : Int)
+    (o0 : Obs K) (os : List (Obs K)) (s : St (List K)) (st : Status)
+    (h : (stochastic dE level limit memLen).feed (o0 :: os) = some (s, st)) :
+    s.aux = lastN memLen ((o0 :: os).map (·.value)) := by
+  generalize hn : os.length = n
+  induction n generalizing os s st with
+  | zero =>
+    have : os = [] := List.length_eq_zero_iff.1 hn
+    subst this
+    rw [feed_single] at h
+    unfold Ctrl.start at h
+    obtain ⟨inc, aux, hcrit, hp, _⟩ := check_eq_some h
+    rw [hp]
+    have := stochastic_aux dE level limit memLen _ _ _ _ _ hcrit
+    simp only [stochastic] at this
+    rw [this]
+    have := stochMem_lastN memLen ([] : List K) o0.value
+    simpa [lastN] using this
+  | succ n ih =>
+    rcases List.eq_nil_or_concat os with rfl | ⟨os', o, rfl⟩
+    · simp at hn
+    · simp only [List.concat_eq_append] at h hn ⊢
+      have hlen : os'.length = n := by simpa using hn
+      rw [feed_snoc] at h
+      cases hf : (stochastic dE level limit memLen).feed (o0 :: os') with
+      | none => simp [hf] at h
+      | some p =>
+        simp [hf] at h
+        obtain ⟨inc, aux, hcrit, hp, _⟩ := check_eq_some h
+        rw [hp]
+        have h1 := stochastic_aux dE level limit memLen _ _ _ _ _ hcrit
+        have h2 := ih os' p.1 p.2 (by rw [hf]) hlen
+        show aux = _
+        rw [h1, h2, stochMem_lastN, ← List.cons_append, List.map_append]
+        rfl
 
 end crit
 
